@@ -40,7 +40,7 @@ ASSUME_COMMON = [
 
 def ref_ok(member) -> bool:
     f = member["features"]
-    return "tag" not in f and "LETTER" not in f
+    return "tag" not in f and "LETTER" not in f and "raw" not in f
 
 
 def select_members(prop: str, tier: str, seed: int):
@@ -49,6 +49,8 @@ def select_members(prop: str, tier: str, seed: int):
     else:
         trivs = list(family.TRIVIA)
     mem = family.family(trivs)
+    if prop in ("C05", "C01", "C07", "C06"):
+        mem += family.stack_family()
     if tier == "thorough":
         mem += family.family2(seed, 400, stack=True)
     out = []
@@ -94,7 +96,7 @@ def modes_for(prop: str, tier: str, seed: int, member) -> list[str]:
     if prop == "C03":
         return ["I"]
     if prop == "C02":
-        modes = ["I", "IO", "G", "GO"] + [f"IO:{i}" for i in range(5)]
+        modes = ["I", "IO", "G", "GO"] + [f"IO:{i}" for i in range(5)] + ["IO:4,3,2,1,0", "IO:4,3", "GO:4,3"]
         if tier == "thorough":
             modes += [f"GO:{i}" for i in range(5)]
             rnd = random.Random(f"{seed}/{member['id']}")
